@@ -46,7 +46,7 @@ Qed.
 
 Lemma fa_init_io_state fuel ffuel r r' k : fa_init fuel ffuel r = (r', IErr (FaIo k)) -> st r' = st r.
 Proof.
-  unfold fa_init. intros H. destruct (fa_first_byte fuel ffuel r 0) as [r1 fb] eqn:E1.
+  unfold fa_init. intros H. destruct (fa_first_byte fuel ffuel r (pline r)) as [r1 fb] eqn:E1.
   destruct (fa_first_byte_run false _ _ _ _ _ _ E1) as [_ Hst].
   destruct fb as [ln pos b| |k'|]; try discriminate.
   - destruct (b =? GT); discriminate.
@@ -145,7 +145,7 @@ Theorem fa_seek_io_state ffuel r line byte_ r' k : fa_seek ffuel r line byte_ = 
 Proof.
   unfold fa_seek. intros H.
   destruct ((0 <=? Z.of_nat (start r) + (Z.of_nat byte_ - Z.of_nat (pbyte r)))%Z &&
-            (Z.of_nat (start r) + (Z.of_nat byte_ - Z.of_nat (pbyte r)) <? Z.of_nat (length (buf r)))%Z); [discriminate|].
+            (Z.of_nat (start r) + (Z.of_nat byte_ - Z.of_nat (pbyte r)) <? Z.of_nat (length (buf r)))%Z && negb (fa_state_eqb (st r) FNew)); [discriminate|].
   destruct (src_seek (src r) byte_) as [s' res] eqn:Es.
   destruct res as [k'|].
   - inversion H; subst. left. fa_simpl. split; reflexivity.
@@ -357,7 +357,7 @@ Theorem fq_seek_io_state ffuel r line byte_ r' k : fq_seek ffuel r line byte_ = 
 Proof.
   unfold fq_seek. intros H.
   destruct ((0 <=? Z.of_nat (p0 r) + (Z.of_nat byte_ - Z.of_nat (qbyte r)))%Z &&
-            (Z.of_nat (p0 r) + (Z.of_nat byte_ - Z.of_nat (qbyte r)) <? Z.of_nat (length (qbuf r)))%Z); [discriminate|].
+            (Z.of_nat (p0 r) + (Z.of_nat byte_ - Z.of_nat (qbyte r)) <? Z.of_nat (length (qbuf r)))%Z && negb (fq_state_eqb (qst r) QNew)); [discriminate|].
   destruct (src_seek (qsrc r) byte_) as [s' res] eqn:Es.
   destruct res as [k'|].
   - inversion H; subst. left. fq_simpl. split; reflexivity.
@@ -414,15 +414,15 @@ Qed.
 
 (** with an empty buffer no target lies "inside the buffer": [seek] performs the
     source seek (an [EvSeek] event is logged) for every target *)
-Theorem fa_seek_empty_buffer_seeks_source ffuel r line byte_ : buf r = [] ->
+(** whenever the shortcut condition is false, [seek] performs the source seek *)
+Lemma fa_seek_real_seeks_source ffuel r line byte_ :
+  ((0 <=? Z.of_nat (start r) + (Z.of_nat byte_ - Z.of_nat (pbyte r)))%Z &&
+   (Z.of_nat (start r) + (Z.of_nat byte_ - Z.of_nat (pbyte r)) <? Z.of_nat (length (buf r)))%Z &&
+   negb (fa_state_eqb (st r) FNew)) = false ->
   exists added, log (fst (fa_seek ffuel r line byte_)) =
                 added ++ EvSeek byte_ (snd (src_seek (src r) byte_)) :: log r.
 Proof.
-  intros Hb. unfold fa_seek. rewrite Hb. cbn [length].
-  assert (E : ((0 <=? Z.of_nat (start r) + (Z.of_nat byte_ - Z.of_nat (pbyte r)))%Z &&
-               (Z.of_nat (start r) + (Z.of_nat byte_ - Z.of_nat (pbyte r)) <? Z.of_nat 0)%Z) = false).
-  { apply andb_false_iff. destruct (Z.leb_spec 0 (Z.of_nat (start r) + (Z.of_nat byte_ - Z.of_nat (pbyte r))));
-      [right; apply Z.ltb_ge; lia|left; reflexivity]. }
+  intros E. unfold fa_seek.
   rewrite E. destruct (src_seek (src r) byte_) as [s' res] eqn:Es. cbn [snd].
   destruct res as [k|]; [exists []; reflexivity|].
   match goal with |- context [fa_fill ffuel ?R] => set (r0 := R) end.
@@ -431,19 +431,54 @@ Proof.
   exists added. destruct fr; cbn [fst]; fa_simpl; rewrite L; unfold r0; fa_simpl; reflexivity.
 Qed.
 
-Theorem fq_seek_empty_buffer_seeks_source ffuel r line byte_ : qbuf r = [] ->
+Theorem fa_seek_empty_buffer_seeks_source ffuel r line byte_ : buf r = [] ->
+  exists added, log (fst (fa_seek ffuel r line byte_)) =
+                added ++ EvSeek byte_ (snd (src_seek (src r) byte_)) :: log r.
+Proof.
+  intros Hb. apply fa_seek_real_seeks_source. rewrite Hb. cbn [length].
+  apply andb_false_iff. left.
+  apply andb_false_iff. destruct (Z.leb_spec 0 (Z.of_nat (start r) + (Z.of_nat byte_ - Z.of_nat (pbyte r))));
+    [right; apply Z.ltb_ge; lia|left; reflexivity].
+Qed.
+
+(** a reader that is still New (its buffer, if any, is the partial result of a failed
+    first refill) never takes the shortcut either *)
+Theorem fa_seek_new_seeks_source ffuel r line byte_ : st r = FNew ->
+  exists added, log (fst (fa_seek ffuel r line byte_)) =
+                added ++ EvSeek byte_ (snd (src_seek (src r) byte_)) :: log r.
+Proof.
+  intros Hs. apply fa_seek_real_seeks_source. rewrite Hs. cbn [fa_state_eqb negb]. apply andb_false_r.
+Qed.
+
+Lemma fq_seek_real_seeks_source ffuel r line byte_ :
+  ((0 <=? Z.of_nat (p0 r) + (Z.of_nat byte_ - Z.of_nat (qbyte r)))%Z &&
+   (Z.of_nat (p0 r) + (Z.of_nat byte_ - Z.of_nat (qbyte r)) <? Z.of_nat (length (qbuf r)))%Z &&
+   negb (fq_state_eqb (qst r) QNew)) = false ->
   exists added, qlog (fst (fq_seek ffuel r line byte_)) =
                 added ++ EvSeek byte_ (snd (src_seek (qsrc r) byte_)) :: qlog r.
 Proof.
-  intros Hb. unfold fq_seek. rewrite Hb. cbn [length].
-  assert (E : ((0 <=? Z.of_nat (p0 r) + (Z.of_nat byte_ - Z.of_nat (qbyte r)))%Z &&
-               (Z.of_nat (p0 r) + (Z.of_nat byte_ - Z.of_nat (qbyte r)) <? Z.of_nat 0)%Z) = false).
-  { apply andb_false_iff. destruct (Z.leb_spec 0 (Z.of_nat (p0 r) + (Z.of_nat byte_ - Z.of_nat (qbyte r))));
-      [right; apply Z.ltb_ge; lia|left; reflexivity]. }
+  intros E. unfold fq_seek.
   rewrite E. destruct (src_seek (qsrc r) byte_) as [s' res] eqn:Es. cbn [snd].
   destruct res as [k|]; [exists []; reflexivity|].
   match goal with |- context [fq_fill ffuel ?R] => set (r0 := R) end.
   destruct (fq_fill ffuel r0) as [r1 fr] eqn:E1.
   destruct (fq_fill_reads _ _ _ _ E1) as (added & L & _).
   exists added. destruct fr; cbn [fst]; fq_simpl; rewrite L; unfold r0; fq_simpl; reflexivity.
+Qed.
+
+Theorem fq_seek_empty_buffer_seeks_source ffuel r line byte_ : qbuf r = [] ->
+  exists added, qlog (fst (fq_seek ffuel r line byte_)) =
+                added ++ EvSeek byte_ (snd (src_seek (qsrc r) byte_)) :: qlog r.
+Proof.
+  intros Hb. apply fq_seek_real_seeks_source. rewrite Hb. cbn [length].
+  apply andb_false_iff. left.
+  apply andb_false_iff. destruct (Z.leb_spec 0 (Z.of_nat (p0 r) + (Z.of_nat byte_ - Z.of_nat (qbyte r))));
+    [right; apply Z.ltb_ge; lia|left; reflexivity].
+Qed.
+
+Theorem fq_seek_new_seeks_source ffuel r line byte_ : qst r = QNew ->
+  exists added, qlog (fst (fq_seek ffuel r line byte_)) =
+                added ++ EvSeek byte_ (snd (src_seek (qsrc r) byte_)) :: qlog r.
+Proof.
+  intros Hs. apply fq_seek_real_seeks_source. rewrite Hs. cbn [fq_state_eqb negb]. apply andb_false_r.
 Qed.
